@@ -157,10 +157,11 @@ impl<T: Send> RendezvousSyncSender<T> {
   /// original handle's `Drop` does not run.
   pub fn to_async(self) -> RendezvousAsyncSender<T> {
     let shared = unsafe { std::ptr::read(&self.shared) };
+    let closed = self.closed.load(Ordering::Relaxed);
     mem::forget(self);
     RendezvousAsyncSender {
       shared,
-      closed: AtomicBool::new(false),
+      closed: AtomicBool::new(closed),
     }
   }
 }
@@ -256,10 +257,11 @@ impl<T: Send> RendezvousSyncReceiver<T> {
   /// Converts this handle into an asynchronous [`RendezvousAsyncReceiver`]. Zero-cost.
   pub fn to_async(self) -> RendezvousAsyncReceiver<T> {
     let shared = unsafe { std::ptr::read(&self.shared) };
+    let closed = self.closed.load(Ordering::Relaxed);
     mem::forget(self);
     RendezvousAsyncReceiver {
       shared,
-      closed: AtomicBool::new(false),
+      closed: AtomicBool::new(closed),
     }
   }
 }
@@ -285,7 +287,7 @@ impl<T: Send> Drop for RendezvousSyncReceiver<T> {
 impl<T: Send> RendezvousAsyncSender<T> {
   /// Sends a value, resolving once a receiver takes it or the channel closes.
   pub fn send(&self, item: T) -> SendFuture<'_, T> {
-    SendFuture::new(&self.shared, item)
+    SendFuture::new(&self.shared, item, self.closed.load(Ordering::Relaxed))
   }
 
   /// Attempts to hand off to an already-waiting receiver without awaiting.
@@ -339,10 +341,11 @@ impl<T: Send> RendezvousAsyncSender<T> {
   /// Converts this handle into a synchronous [`RendezvousSyncSender`]. Zero-cost.
   pub fn to_sync(self) -> RendezvousSyncSender<T> {
     let shared = unsafe { std::ptr::read(&self.shared) };
+    let closed = self.closed.load(Ordering::Relaxed);
     mem::forget(self);
     RendezvousSyncSender {
       shared,
-      closed: AtomicBool::new(false),
+      closed: AtomicBool::new(closed),
     }
   }
 }
@@ -369,7 +372,7 @@ impl<T: Send> RendezvousAsyncReceiver<T> {
   /// Receives a value, resolving once a sender hands one off or the channel
   /// disconnects.
   pub fn recv(&self) -> RecvFuture<'_, T> {
-    RecvFuture::new(&self.shared)
+    RecvFuture::new(&self.shared, self.closed.load(Ordering::Relaxed))
   }
 
   /// Attempts to take from an already-waiting sender without awaiting.
@@ -423,10 +426,11 @@ impl<T: Send> RendezvousAsyncReceiver<T> {
   /// Converts this handle into a synchronous [`RendezvousSyncReceiver`]. Zero-cost.
   pub fn to_sync(self) -> RendezvousSyncReceiver<T> {
     let shared = unsafe { std::ptr::read(&self.shared) };
+    let closed = self.closed.load(Ordering::Relaxed);
     mem::forget(self);
     RendezvousSyncReceiver {
       shared,
-      closed: AtomicBool::new(false),
+      closed: AtomicBool::new(closed),
     }
   }
 }
@@ -459,16 +463,19 @@ impl<T: Send> Drop for RendezvousAsyncReceiver<T> {
 pub struct SendFuture<'a, T: Send> {
   shared: &'a Arc<MpmcRvShared<T>>,
   slot: Option<T>,
+  /// The handle was already closed when this future was created.
+  handle_closed: bool,
   state: AtomicU8,
   registered: bool,
   _pin: PhantomPinned,
 }
 
 impl<'a, T: Send> SendFuture<'a, T> {
-  fn new(shared: &'a Arc<MpmcRvShared<T>>, item: T) -> Self {
+  fn new(shared: &'a Arc<MpmcRvShared<T>>, item: T, handle_closed: bool) -> Self {
     Self {
       shared,
       slot: Some(item),
+      handle_closed,
       state: AtomicU8::new(WAITING),
       registered: false,
       _pin: PhantomPinned,
@@ -481,6 +488,10 @@ impl<'a, T: Send> Future for SendFuture<'a, T> {
 
   fn poll(self: Pin<&mut Self>, cx: &mut Context<'_>) -> Poll<Self::Output> {
     let this = unsafe { self.get_unchecked_mut() };
+    // A handle that was itself closed rejects new operations (as try_send does).
+    if this.handle_closed && !this.registered {
+      return Poll::Ready(Err(SendError::Closed));
+    }
     if this.slot.is_none() && !this.registered {
       return Poll::Ready(Ok(()));
     }
@@ -508,16 +519,19 @@ impl<'a, T: Send> Drop for SendFuture<'a, T> {
 pub struct RecvFuture<'a, T: Send> {
   shared: &'a Arc<MpmcRvShared<T>>,
   dest: Option<T>,
+  /// The handle was already closed when this future was created.
+  handle_closed: bool,
   state: AtomicU8,
   registered: bool,
   _pin: PhantomPinned,
 }
 
 impl<'a, T: Send> RecvFuture<'a, T> {
-  fn new(shared: &'a Arc<MpmcRvShared<T>>) -> Self {
+  fn new(shared: &'a Arc<MpmcRvShared<T>>, handle_closed: bool) -> Self {
     Self {
       shared,
       dest: None,
+      handle_closed,
       state: AtomicU8::new(WAITING),
       registered: false,
       _pin: PhantomPinned,
@@ -530,6 +544,10 @@ impl<'a, T: Send> Future for RecvFuture<'a, T> {
 
   fn poll(self: Pin<&mut Self>, cx: &mut Context<'_>) -> Poll<Self::Output> {
     let this = unsafe { self.get_unchecked_mut() };
+    // A handle that was itself closed rejects new operations (as try_recv does).
+    if this.handle_closed && !this.registered {
+      return Poll::Ready(Err(RecvError::Disconnected));
+    }
     this
       .shared
       .poll_recv(cx, &this.state, &mut this.dest, &mut this.registered)
